@@ -459,6 +459,15 @@ def ip_address(a):
         if len(a) == 16:
             return _mk_addr(ipaddress.IPv6Address, a.to_int())
         raise ValueError('does not appear to be an IPv4 or IPv6 address')
+    if isinstance(a, SymInt):
+        # stdlib semantics for an integer argument: IPv4 if it fits 32 bits, else IPv6 if it fits 128 bits
+        if a < 0:
+            raise ValueError('does not appear to be an IPv4 or IPv6 address')
+        if a <= 0xFFFFFFFF:
+            return _mk_addr(ipaddress.IPv4Address, a)
+        if a.t.size() <= 128 or a <= (1 << 128) - 1:
+            return _mk_addr(ipaddress.IPv6Address, a)
+        raise ValueError('does not appear to be an IPv4 or IPv6 address')
     return _real_ip_address(a)
 
 
